@@ -139,6 +139,8 @@ def expr(e, env):
     if k == "star":
         return Star() if e[1] is None else env.lookup(e[1]).star
     if k == "as":
+        if len(e) > 3 and e[3] == "kw":
+            return _alias_by_keyword(e[1], e[2], X, O)
         return X(e[1]).as_(e[2])
     if k == "neg":
         return -X(e[1])
@@ -230,6 +232,26 @@ def expr(e, env):
     raise ValueError("expr: %r" % (e,))
 
 
+def _alias_by_keyword(e, alias, X, O):
+    """the alias handed to the constructor (alias=...) instead of .as_(): for the term kinds whose constructor takes one"""
+    k = e[0]
+    if k == "func":
+        return Function(e[1], *[O(a) for a in e[2]], alias=alias)
+    if k == "agg" and not (len(e) > 3 and e[3] == "distinct"):
+        f = {"SUM": FN.Sum, "COUNT": FN.Count, "MIN": FN.Min, "MAX": FN.Max, "AVG": FN.Avg}[e[1]]
+        return f(X(e[2]) if e[2] != "*" else "*", alias=alias)
+    if k == "win":
+        cls = {"ROW_NUMBER": AN.RowNumber, "RANK": AN.Rank, "SUM": AN.Sum, "MAX": AN.Max, "COUNT": AN.Count}[e[1]]
+        w = cls(*[X(a) for a in e[2]], alias=alias)
+        w = w.over(*[X(p) for p in e[3]]) if e[3] else w.over()
+        for o in e[4]:
+            w = w.orderby(X(o[0]), order=ORD[o[1]])
+        return w
+    if k == "coalesce":
+        return FN.Coalesce(*[O(a) for a in e[1]], alias=alias)
+    return X(e).as_(alias)
+
+
 def operand(e, env):
     """right-hand operands: ["raw", v] / ["null"] are handed to the library as python constants"""
     if e[0] == "raw":
@@ -305,7 +327,8 @@ def call(q, c, env):
     if k == "insert":
         return q.insert(*[operand(e, env) for e in c[1]])
     if k == "insert_rows":
-        return q.insert(*[tuple(operand(e, env) for e in row) for row in c[1]])
+        rowtype = list if (len(c) > 2 and c[2] == "list") else tuple  # a row may be given as a tuple or as a list
+        return q.insert(*[rowtype(operand(e, env) for e in row) for row in c[1]])
     if k == "replace":
         return q.replace(*[operand(e, env) for e in c[1]])
     if k == "on_conflict":
